@@ -8,7 +8,7 @@ CFG_QUICK = [
     dict(comp="xz", bs=4096, T=1, e=1),
     dict(comp="lz4", bs=4096, j=4, Q=1),
     dict(comp="zstd", bs=8192, X="level=3"),
-    dict(comp="gzip", bs=4096, B=65536, e=1),
+    dict(comp="gzip", bs=4096, B=126976, e=1),      # a UBI erase-block size: not a power of two
 ]
 CFG_THOROUGH = CFG_QUICK + [
     dict(comp="gzip", bs=131072, e=1, X="level=1"),
@@ -21,6 +21,8 @@ CFG_THOROUGH = CFG_QUICK + [
     dict(comp="gzip", bs=4096, all_root=1),
     dict(comp="zstd", bs=1048576),
     dict(comp="lz4", bs=4096, B=1024),
+    dict(comp="gzip", bs=4096, B=65536),
+    dict(comp="zstd", bs=4096, B=3000, e=1),
     dict(comp="xz", bs=131072, B=1048576, T=1),
 ]
 CFG_OPTION_QUICK = [
